@@ -28,6 +28,8 @@ def u32(n):
 def build_msg(desc: str) -> bytes:
     """cmd:flags:app:hbh:e2e:k=v,k=v…  →  wire bytes of a well-formed message.
     keys: oh or dh dr rc auth acct sid ip vid pn dc sc rt rn ex(unknown AVP)"""
+    if desc.startswith("X"):
+        return bytes.fromhex(desc[1:])
     parts = desc.split(":")
     cmd = CMD.get(parts[0], None) or int(parts[0])
     flags, app, hbh, e2e = int(parts[1]), int(parts[2]), int(parts[3]), int(parts[4])
